@@ -303,8 +303,17 @@ func TestC02RandomHistories(t *testing.T) {
 			ev.Sample("c02:random-history", map[string]interface{}{"capacities": caps, "history": hist})
 		}
 		s.crossCheckAPI()
-		// what the reports added up to is the same after the log has been replayed
-		s.restart(s.now)
+		// what the reports added up to is the same after the log has been replayed -
+		// also when the server comes back days later, with the reports far outside
+		// the range in which a NEW report would be accepted (but no rotation due)
+		later := s.now + rapid.SampledFrom([]uint32{0, 0, 1, 432, 433, 600, 1000}).Draw(t, "downtimeSlots")
+		if later >= s.M.Offset+3190 {
+			later = s.now
+		}
+		if later > s.now+432 {
+			ev.Label("c02:restart-beyond-acceptance-range")
+		}
+		s.restart(later)
 		check()
 		s.crossCheckAPI()
 		s.close()
